@@ -24,7 +24,9 @@ import QuicModel.Data.RefBufSpec
                                   payload is cut into packets of at most `mss` bytes, the last one
                                   carries the FIN) — the application itself seals and sends them.
     * `load`                      `State::load_transmission_queue` / `on_transmit_segment`.
-    * `ack`                       `on_frame_ack` for ONE ack range of one space (+ `try_finish`).
+    * `ack`                       `on_frame_ack` for ONE ack range of one space (+ `try_finish`); the
+                                  per-packet loops of `ack`, `detectLost`, `load` are written as
+                                  filters/maps over the affected packets.
     * `detectLost`                `detect_lost_packets` (packet threshold 2, retransmission of the
                                   stored segment only while its buffer is still alive).
     * `maxData`                   `FrameMut::MaxData` in `on_control_packet_impl`.
@@ -192,20 +194,31 @@ def write (s : Send) (data : List Nat) (fin : Bool) (mss : Nat) : Send × List W
                     nextPn := s.nextPn + frames.length, pending := s.pending ++ frames },
            frames.map (fun pf => ⟨false, pf.1, pf.2⟩), .accepted len)
 
-/-- `on_transmit_segment` for one segment -/
-def onTransmitSegment (s : Send) (f : Frame) : Send :=
-  let s := { s with maxSentOffset := max s.maxSentOffset f.end_, state := s.state.onSendStream }
-  if f.fin then
-    -- `unacked_ranges.remove(final_offset..)`, `on_send_fin`
-    { s with acked := (f.end_, none) :: s.acked, state := (s.state.onSendFin).getD s.state }
-  else s
+/-- `on_transmit_segment`, the state machine part: `on_send_stream`, and `on_send_fin` for a FIN -/
+def segState (st : SState) (f : Frame) : SState :=
+  let st := st.onSendStream
+  if f.fin then (st.onSendFin).getD st else st
 
-/-- `load_transmission_queue` -/
+/-- `on_transmit_segment` for one segment (everything but the `sent_*_packets` insertion) -/
+def onTransmitSegment (s : Send) (f : Frame) : Send :=
+  { s with
+    maxSentOffset := max s.maxSentOffset f.end_
+    state := segState s.state f
+    -- `unacked_ranges.remove(final_offset..)`
+    acked := if f.fin then (f.end_, none) :: s.acked else s.acked }
+
+/-- `load_transmission_queue`: `on_transmit_segment` for every queued application transmission (the
+    per-segment loop written field by field), then `reset_pto_timer` if there was any -/
 def load (s : Send) : Send :=
-  let s' := s.pending.foldl (fun acc pf =>
-    let acc := onTransmitSegment acc pf.2
-    { acc with sentStream := acc.sentStream ++ [pf], live := acc.live ++ [pf.2] }) s
-  { s' with pending := [], ptoTransmissions := if s.pending.isEmpty then s'.ptoTransmissions else 0 }
+  let fs := s.pending.map (·.2)
+  { s with
+    pending := []
+    sentStream := s.sentStream ++ s.pending
+    live := s.live ++ fs
+    maxSentOffset := (fs.map Frame.end_).foldl max s.maxSentOffset
+    state := fs.foldl segState s.state
+    acked := ((fs.filter (·.fin)).map (fun f => (f.end_, (none : Option Nat)))).reverse ++ s.acked
+    ptoTransmissions := if s.pending.isEmpty then s.ptoTransmissions else 0 }
 
 /-- `tracking_range` of a segment -/
 def trackingRange (f : Frame) : Nat × Option Nat := (f.off, if f.fin then none else some f.end_)
@@ -223,46 +236,38 @@ def tryFinish (s : Send) : Send :=
     | some st => cleanUp { s with state := st }
     | none => s
 
-/-- the bookkeeping for one acknowledged packet -/
-def onPacketAcked (s : Send) (f : Frame) (retransmittable : Bool) : Send :=
-  let s := { s with acked := trackingRange f :: s.acked }
-  if retransmittable then
-    { s with live := s.live.erase f, retransmissions := s.retransmissions.filter (· != f) }
-  else s
-
-/-- `on_frame_ack` for the range `lo..=hi` of one space, then `try_finish` -/
+/-- `on_frame_ack` for the range `lo..=hi` of one space (the per-packet loop written field by
+    field: the acknowledged packets leave the sent map, their tracking ranges leave `unacked_ranges`,
+    the stored segments are freed and with them their queued retransmissions), then `try_finish` -/
 def ack (s : Send) (recovery : Bool) (lo hi : Nat) : Send :=
   let hit (pn : Nat) : Bool := decide (lo ≤ pn) && decide (pn ≤ hi)
-  let s :=
-    if recovery then
-      let ackedPkts := s.sentRecovery.filter (fun p => hit p.1)
-      let s := { s with sentRecovery := s.sentRecovery.filter (fun p => !hit p.1) }
-      ackedPkts.foldl (fun acc p => onPacketAcked acc p.2.1 p.2.2) s
-    else
-      let ackedPkts := s.sentStream.filter (fun p => hit p.1)
-      let s := { s with sentStream := s.sentStream.filter (fun p => !hit p.1) }
-      ackedPkts.foldl (fun acc p => onPacketAcked acc p.2 true) s
-  tryFinish s
+  let ackedS := if recovery then [] else s.sentStream.filter (fun p => hit p.1)
+  let ackedR := if recovery then s.sentRecovery.filter (fun p => hit p.1) else []
+  let freed : List Frame := ackedS.map (·.2) ++ (ackedR.filter (·.2.2)).map (·.2.1)
+  let ranges := ackedS.map (fun p => trackingRange p.2) ++ ackedR.map (fun p => trackingRange p.2.1)
+  tryFinish
+    { s with
+      sentStream := if recovery then s.sentStream else s.sentStream.filter (fun p => !hit p.1)
+      sentRecovery := if recovery then s.sentRecovery.filter (fun p => !hit p.1) else s.sentRecovery
+      acked := ranges.reverse ++ s.acked
+      live := s.live.filter (fun f => !freed.contains f)
+      retransmissions := s.retransmissions.filter (fun f => !freed.contains f) }
 
-/-- the bookkeeping for one packet declared lost -/
-def onPacketLost (s : Send) (pn : Nat) (f : Frame) (retransmittable : Bool) : Send :=
-  if retransmittable && s.live.contains f then
-    { s with recoveryPn := max s.recoveryPn (pn + 1), retransmissions := s.retransmissions ++ [f] }
-  else s
-
-/-- `detect_lost_packets(space, max)`: everything at or below `max − 2` is lost -/
+/-- `detect_lost_packets(space, max)`: everything at or below `max − 2` is lost; a lost packet's
+    stored segment is queued for retransmission while its buffer is still alive -/
 def detectLost (s : Send) (recovery : Bool) (maxAcked : Nat) : Send :=
   if maxAcked < 2 then s
   else
     let threshold := maxAcked - 2
-    if recovery then
-      let lost := s.sentRecovery.filter (fun p => decide (p.1 ≤ threshold))
-      let s := { s with sentRecovery := s.sentRecovery.filter (fun p => !decide (p.1 ≤ threshold)) }
-      lost.foldl (fun acc p => onPacketLost acc p.1 p.2.1 p.2.2) s
-    else
-      let lost := s.sentStream.filter (fun p => decide (p.1 ≤ threshold))
-      let s := { s with sentStream := s.sentStream.filter (fun p => !decide (p.1 ≤ threshold)) }
-      lost.foldl (fun acc p => onPacketLost acc p.1 p.2 true) s
+    let lostS := if recovery then [] else s.sentStream.filter (fun p => decide (p.1 ≤ threshold))
+    let lostR := if recovery then s.sentRecovery.filter (fun p => decide (p.1 ≤ threshold)) else []
+    let again : List (Nat × Frame) :=
+      (lostS ++ (lostR.filter (·.2.2)).map (fun p => (p.1, p.2.1))).filter (fun p => s.live.contains p.2)
+    { s with
+      sentStream := if recovery then s.sentStream else s.sentStream.filter (fun p => !decide (p.1 ≤ threshold))
+      sentRecovery := if recovery then s.sentRecovery.filter (fun p => !decide (p.1 ≤ threshold)) else s.sentRecovery
+      recoveryPn := (again.map (fun p => p.1 + 1)).foldl max s.recoveryPn
+      retransmissions := s.retransmissions ++ again.map (·.2) }
 
 /-- `make_stream_packets_as_pto_probes`: the oldest in-flight segments become retransmissions -/
 def makeProbes (s : Send) : Send :=
